@@ -149,3 +149,37 @@ PROPS["C08"] = {
     "level_text": "Seeded exploration of writer interleavings on one encrypted connection: the scheduler owns the order of frame sealing and socket writes. A reach probe counts runs with two writers parked on the same connection.",
     "level_note": "Sampling of schedules; the race detector is blind under the token scheduler and is not used to decide the property.",
 }
+
+VAL_ASSUME = ["x/crypto, std crypto, encoding/json and net/http are trusted and shared by both sides",
+              "the constructor table is regenerated from /repo/characteristic at build time (go/ast scan for zero-argument New* functions)",
+              "interleavings at park-point granularity"]
+
+PROPS["C09"] = {
+    "test": "TestC09", "level": "exploration", "budget": {"quick": 30, "thorough": 900},
+    "rule": "a bridge built from 3..12, 20..60 or all ~167 zero-argument characteristic constructors found in /repo (1..8 per accessory, so 1 to ~170 accessories), 1..3 verified controllers and 1..2 application goroutines run 1..14 operations over a working set of 1..4 characteristics: application set / get, controller GET /characteristics with 1..5 ids (existing, foreign, missing), GET /accessories, PUT of in-range values per format (booleans, integers within min/max, floats in 0.1 steps, UTF-8 strings with quotes / escapes / HTML characters / non-BMP runes up to 3000 runes, base64 payloads up to 2500 bytes); the scheduler interleaves actors and segments TCP. Oracles: per-characteristic register linearizability of all sets, PUTs and reads (porcupine, operations stamped with scheduler sequence numbers), 200 vs 207, one entry per requested id in order, a status on every entry of a 207 answer, an error status for missing ids, PUT answered 204, remote-update callbacks carry exactly the uniquely written values, exactly once. non-trivial = more than one operation; distinct = distinct (selection size, operation kinds per actor, event-log hash)",
+    "real": REAL_SYSTEM, "stub": STUB_SYSTEM, "assumptions": VAL_ASSUME + ["a reading without a value key is taken as the zero value of the format (omitempty drops \"\", 0 and false)", "porcupine Unknown (timeout) is counted as inconclusive, never as a violation; histories are capped at 40 operations per characteristic"],
+    "level_text": "Seeded exploration over constructors x values x id lists x bridge sizes with concurrent actors; value fidelity is decided by a linearizability check of each characteristic's history against a register model, the response shape by direct comparison.",
+    "level_note": "Sampling; the whole catalog is used in one of eight scenarios.",
+    "technique": "deterministic simulation: seeded schedules and segmentation, recorded invoke/return history checked for linearizability (porcupine) against a register model, shrinking and replay",
+}
+PROPS["C10"] = {
+    "test": "TestC10", "level": "exploration", "budget": {"quick": 30, "thorough": 900},
+    "rule": "same bridge; 1..3 verified controllers and 1..2 application goroutines run 1..14 operations from {application set, controller PUT (unique values, or deliberately the current value), subscribe, unsubscribe, close + reconnect + verify, GET}; the order in which connections are notified is a scheduler choice (connection-order hook); every controller ends with a drain round trip once all operations are done. Interval oracle per (change, connection): exactly one EVENT if the connection's last subscription-affecting operation that returned before the change began is an accepted subscribe, nothing of that connection overlaps the change, it is open and not the originator and no other write to that characteristic overlaps; none if it is the originator, closed before, never subscribed before the change ended, last unsubscribed, the value did not change or the characteristic has no ev permission; either otherwise; never two; never an event nobody wrote. non-trivial = more than one operation",
+    "real": REAL_SYSTEM, "stub": STUB_SYSTEM, "assumptions": VAL_ASSUME + ["boolean characteristics are excluded from exactly-once counting (values are not unique)", "ProgrammableSwitchEvent style 'notify on same value' is not modelled: 'same' writes on it are judged 'either' only when overlapping"],
+    "level_text": "Seeded exploration of subscribe / change / close histories over several connections with a purpose-built interval checker over the recorded history (scheduler sequence numbers).",
+    "level_note": "Sampling.",
+}
+PROPS["C11"] = {
+    "test": "TestC11", "level": "exploration", "budget": {"quick": 30, "thorough": 900},
+    "rule": "same bridge with generated permission sets overriding a third of the characteristics (any subset of pr/pw/ev); operations: application set, in-process UpdateValueFromConnection, controller PUT of values, ev:true / ev:false, GET /characteristics, GET /accessories. Oracles: a remote write (HTTP or in-process) to a characteristic without pw leaves the value unchanged and runs no callback; a characteristic without pr has a nil stored value at every quiescent point and no value key in any answer; ev on a characteristic without ev is answered with a status entry and no EVENT for it is ever delivered",
+    "real": REAL_SYSTEM, "stub": STUB_SYSTEM, "assumptions": VAL_ASSUME + ["the weight of this check is carried by enumerating constructors x permission sets x values; the simulator contributes the delivery path and the 'no event later' history"],
+    "level_text": "Seeded exploration over constructors, permission sets and values on both the in-process and the HTTP path, as invariants at quiescent points and over the recorded history.",
+    "level_note": "Sampling.",
+}
+PROPS["C12"] = {
+    "test": "TestC12", "level": "exploration", "budget": {"quick": 30, "thorough": 900},
+    "rule": "same bridge; application set, in-process UpdateValueFromConnection and controller PUT with arbitrary finite JSON values (numbers of any magnitude and sign, numeric and non-numeric strings incl. \"NaN\" and \"1e400\", booleans, null, arrays, objects, and the previous value repeated); invariant at every quiescent point for every readable characteristic: the dynamic type of the stored value is the one the typed getter asserts for the format, it lies within the declared minimum and maximum, floats are finite; at the end every accessory encodes as JSON; no handler or application goroutine panicked",
+    "real": REAL_SYSTEM, "stub": STUB_SYSTEM, "assumptions": VAL_ASSUME + ["'type its format declares' is read as the Go type the typed getter asserts (int, float64, bool, string); integer formats are only held to their declared min/max, not to the width of the format"],
+    "level_text": "Seeded exploration over constructors x arbitrary JSON values x update sequences, checked as a state invariant at every quiescent point.",
+    "level_note": "Sampling.",
+}
